@@ -1714,7 +1714,29 @@ def writer(node, model, noop):
 
 
 def c14_gen(rng):
+    if maybe(rng, 0.001):
+        # nesting deeper than the interpreter's default recursion limit (a caller who decodes such a
+        # graph has raised the limit): the diagnostics still follow the text at every depth
+        return {'deep': rng.choice([1005, 1100]), 'model': rng.choice(['default', 'amr'])}
     return {'tree': j_node(gen.gen_tree(rng, wf=True, max_nodes=10, strict=maybe(rng, 0.8))), 'model': rng.choice(['default', 'amr'])}
+
+
+def deep_chain(d):
+    node = ('v%d' % d, [('/', 'c'), (':ARG1-of', 'v0'), (':mod', 'v%d' % (d // 2))])
+    for i in range(d - 1, -1, -1):
+        node = ('v%d' % i, [('/', 'c'), (':ARG0', node), (':polarity', '-')])
+    return node
+
+
+def c14_check_deep(case):
+    old = sys.getrecursionlimit()
+    sys.setrecursionlimit(max(old, 40 * case['deep'] + 5000))
+    try:
+        return c14_check({'tree_node': deep_chain(case['deep']), 'model': case['model']})
+    except RecursionError:
+        return None
+    finally:
+        sys.setrecursionlimit(old)
 
 
 def pickle_copy(g):
@@ -1723,7 +1745,9 @@ def pickle_copy(g):
 
 
 def c14_check(case):
-    node = py_node(case['tree'])
+    if case.get('deep'):
+        return c14_check_deep(case)
+    node = case['tree_node'] if 'tree_node' in case else py_node(case['tree'])
     m = py_model(case['model'])
     if not c02_wf_layout(node, m):
         return None
@@ -2459,7 +2483,41 @@ def c17_check(case):
         if r3 != r1:
             return f'{name} gives a different result on a deep-copied/pickled argument'
         results[name] = r1
-    return c17_tree_history(g, m)
+    return c17_tree_history(g, m) or c17_interleaved(text, m)
+
+
+def c17_interleaved(text, m):
+    """a lazily consumed iterdecode/iterparse gives the same graphs whether or not other decoding calls
+    run between two of its steps"""
+    stream = text + '\n\n' + text + '\n\n(zz / other :ARG0 (yy / thing))\n'
+
+    def run(between):
+        out = []
+        try:
+            for g in penman.iterdecode(stream, model=m):
+                out.append(snap(g))
+                between()
+        except Exception as e:  # noqa: BLE001
+            out.append('EXC:' + type(e).__name__)
+        try:
+            for t in penman.iterparse(stream):
+                out.append(repr(t.node))
+                between()
+        except Exception as e:  # noqa: BLE001
+            out.append('EXC:' + type(e).__name__)
+        return out
+
+    def other():
+        for f in (lambda: penman.decode('(q / quux :mod (r / rr))', model=m), lambda: penman.parse_triples('instance(a, b) ^ ARG0(a, c)'),
+                  lambda: next(iter(penman.iterparse('(p / pp) (p2 / pp)')))):
+            try:
+                f()
+            except Exception:  # noqa: BLE001
+                pass
+    a, b = run(lambda: None), run(other)
+    if a != b:
+        return f'iterdecode/iterparse of {stream!r} gives other results when other decoding calls run between its steps'
+    return None
 
 
 def c17_tree_history(g, m):
